@@ -577,7 +577,7 @@ type c19Pub struct {
 }
 
 func TestVerifC19World(t *testing.T) {
-	vRun(t, "C19.world", vCount(400, 8000), func(c *vCase) {
+	vRun(t, "C19.world", vCount(400, 25000), func(c *vCase) {
 		dir, err := os.MkdirTemp("", "c19")
 		if err != nil {
 			c.Inconclusive("tmp dir: %v", err)
@@ -1350,7 +1350,7 @@ func TestVerifC19World(t *testing.T) {
 // attached: after every operation and every heartbeat the replayed trace must
 // equal the router's peer set and meshes.
 func TestVerifC19Mesh(t *testing.T) {
-	vRun(t, "C19.mesh", vCount(250, 5000), func(c *vCase) {
+	vRun(t, "C19.mesh", vCount(250, 15000), func(c *vCase) {
 		c.Bubble(func() {
 			tee := &c19Tee{closedAt: 0}
 			pushLog := c19StartPushLog()
